@@ -5,3 +5,14 @@ package types
 
 //@ func (*Transaction).Hash
 //@   inline
+
+//@ func (*Header).Hash
+//@   trusted   -- provisional: connected to serializationUnsigned + SHA256d by the C02 contracts
+//@   modifies self.hash
+//@   ensures result == hdrDigest(ref(self))
+
+//@ func AddressFromBookkeepers
+//@   trusted   -- provisional (C39 contracts): address of the m-of-n program of the keys
+
+//@ func (*Block).Hash
+//@   inline
